@@ -14,6 +14,7 @@ from harness.swharness import Harness
 PNONE, PALL, ABSENT, BADACT = 65535, 65532, 9, 65000
 FRAME_LEN = 60
 ET_OF = {"f1": 0x88b5, "f2": 0x88b6, "miss": 0x0801}
+ET_BADFLOW = 0x88b7       # the flow whose action list the switch must refuse ("addbad")
 OUT_OF = {"f1": 2, "f2": 1}
 STYPE = {"DESC": 0, "FLOW": 1, "AGGREGATE": 2, "TABLE": 3, "PORT": 4, "QUEUE": 5,
          "VENDOR": 0xffff}
@@ -35,6 +36,7 @@ def fmatch(m):
 class Adapter(object):
   def __init__(self, NP=2, NB=1, MaxEntries=2, seed=0, probe=False):
     self.NP, self.NB, self.probe = NP, NB, probe
+    self.seed, self.started = seed, False
     rnd = random.Random(seed)
     self.rnd = rnd
     self.dpid = rnd.choice([1, 0x7fff, 0x0000ffffffffffff, 0x00007f0000000001 + rnd.randrange(1 << 20)])
@@ -277,6 +279,17 @@ class Adapter(object):
         return rb.flow_mod(command=rb.FC_ADD, flags=rb.FF_EMERG, **kw)
       if cmd == "emergto":
         return rb.flow_mod(command=rb.FC_ADD, flags=rb.FF_EMERG, idle=5, **kw)
+      if cmd == "emergrem":
+        return rb.flow_mod(command=rb.FC_ADD, flags=rb.FF_EMERG | rb.FF_SEND_FLOW_REM, **kw)
+      if cmd == "addbad":
+        # a flow whose only action is of an unsupported type; whatever the switch
+        # did with it is erased by the strict delete that follows (harness
+        # housekeeping: produces no message either way), so only the answer to
+        # the flow-mod itself is observed
+        bm = rb.match(wildcards=rb.FW_ALL & ~rb.FW_DL_TYPE, dl_type=ET_BADFLOW)
+        return (rb.flow_mod(command=rb.FC_ADD, match_bytes=bm, buffer_id=buf, xid=x,
+                            actions=rb.a_vendor(0x00002320, b"\0" * 8)) +
+                rb.flow_mod(command=rb.FC_DELETE_STRICT, match_bytes=bm, xid=PROBE_XID + 9))
     if a == "PortMod":
       k, p = args["kind"], args["p"]
       cfg = rb.PC_PORT_DOWN if args["dn"] else 0
@@ -332,6 +345,12 @@ class Adapter(object):
       return {"probe": "failed:%s" % type(e).__name__}
 
   def step(self, a, args):
+    if not self.started:
+      # the adapter seed is the same for all behaviours of one replay call: mix the
+      # first step in, so that the symbol -> xid mapping differs between behaviours
+      self.started = True
+      if not self.xmap:
+        random.Random("%s|%s|%s" % (self.seed, a, sorted((args or {}).items()))).shuffle(self.xpool)
     if a == "Rx":
       self.reqs = []
       esc = None
